@@ -16,7 +16,15 @@ every program the monitor observes the real pandera code:
 * ATTR      Model.<field> is the public column name (alias respected);
 * ORDER     a twin hierarchy built from the same program whose to_schema
             calls happen in another order (e.g. leaf first) gives the same
-            schemas.
+            schemas;
+* AUX       the other public classmethods of a model (empty, get_metadata,
+            to_json_schema, to_yaml, strategy, pydantic_validate) are
+            interleaved with the compilations and validations - as the first
+            call on a class, right after it was compiled (before its
+            subclasses exist), between two validations: the model's schema,
+            fingerprinted (with function identity) right before the call, is
+            the same afterwards, so is every other class's, and the VERDICT
+            comparisons that follow see the consequences.
 """
 from __future__ import annotations
 
@@ -43,8 +51,14 @@ def new_run():
         "regex, Config options + extras-as-checks, @check / @dataframe_check / "
         "@parser / @dataframe_parser methods, field overrides (new Field, "
         "Field only, bare annotation only, renaming), method / Config overrides "
-        "(incl. switching an inherited option off)) "
-        "x 2-3 generated frames per class x {eager, lazy}; non-trivial = the "
+        "(incl. switching an inherited option off and setting an inherited "
+        "None-default option - unique, title, description, name, dtype - back "
+        "to None / [] / '')), Config.dtype; auxiliary classmethods (empty, "
+        "get_metadata, to_json_schema, to_yaml, strategy, pydantic_validate) "
+        "interleaved before the first to_schema, after compilation and "
+        "between validations) "
+        "x 2-3 generated frames per class (incl. rows repeated in the columns "
+        "an ancestor declared jointly unique) x {eager, lazy}; non-trivial = the "
         "tree has >= 2 classes or a custom method or a Config; distinct = "
         "canonical hash of the program",
         ["resolve() in pvm/c16_gen.py encodes python-inheritance semantics as "
@@ -61,10 +75,15 @@ def new_run():
          "failing validate leaves on the model's cached schema (C05), a class "
          "whose field override renames a column that an inherited @check / "
          "@parser still designates by the old name (pandera refuses it with "
-         "SchemaInitError; only the ancestors' schemas are watched)",
+         "SchemaInitError; only the ancestors' schemas are watched), what "
+         "the auxiliary classmethods return or raise (only their effect on "
+         "the schemas is judged)",
          "not generated: multiple inheritance / mixins, fields named like a "
          "DataFrameModel classmethod (example, empty, strategy ...), falsy "
-         "title / description / check names"])
+         "check names and falsy Field titles / descriptions (a Config title "
+         "/ description of '' only as the reset of an inherited one), "
+         "Config.multiindex_* / from_format / to_format, example() "
+         "(hypothesis draws are not seed-controlled)"])
 
 
 # ------------------------------------------------------------ fingerprints
@@ -337,6 +356,36 @@ def classify_raise(prog, i, e):
     return None
 
 
+# ------------------------------------------------- auxiliary classmethods
+# Public classmethods of a model other than to_schema / validate.  None of
+# them is documented to change what the model means, and the statement makes
+# to_schema stable and the verdict a function of the class definition alone:
+# they are interleaved with the compilations and validations, and the
+# model's schema is fingerprinted around every call.  What they return (or
+# raise: polars has no empty / strategy) is not this property's subject.
+AUX_OPS = {
+    "pandas": ["empty", "empty", "get_metadata", "to_json_schema", "to_yaml",
+               "strategy", "pydantic_validate"],
+    "polars": ["empty", "get_metadata", "to_json_schema", "to_yaml",
+               "strategy", "pydantic_validate"],
+}
+
+
+def aux_call(cls, op):
+    import warnings
+    with warnings.catch_warnings():
+        warnings.simplefilter("ignore")
+        if op == "strategy":
+            return cls.strategy(size=3)
+        if op == "pydantic_validate":
+            return cls.pydantic_validate(cls)
+        return getattr(cls, op)()
+
+
+def aux_mechanism(op):
+    return "model-%s-modifies-cached-schema" % op
+
+
 # ---------------------------------------------------------------------- case
 def _cleanup(classes):
     try:
@@ -421,6 +470,17 @@ def one_case(run, rng, backend=None, prog=None):
                 if v is False and c["parent"] is not None and \
                         flats[c["parent"]]["options"].get(k):
                     run.count("config_opt:switched-off-in-subclass")
+                if k in P.NONE_DEFAULT_OPTS and not v:
+                    run.count("config_opt:explicit-None-or-falsy")
+                    if c["parent"] is not None and \
+                            flats[c["parent"]]["options"].get(k):
+                        run.count("config_opt:reset-in-subclass")
+                        run.count("config_opt:reset-in-subclass:" + k)
+                        run.count("config_opt:reset-in-subclass:%s:%s"
+                                  % (backend, c["config"]["style"]))
+                        run.count("config_opt:reset-in-subclass:to:%r" % (v,))
+                        if len(P.chain(prog, ci)) >= 3:
+                            run.count("config_opt:reset-in-subclass:depth3")
             for k in c["config"]["extras"]:
                 run.count("config_extra:" + k)
 
@@ -463,6 +523,42 @@ def one_case(run, rng, backend=None, prog=None):
                                "is_ancestor": anc, "diff": d}, None)
 
     h1 = []
+    aux_changed = {}       # class index -> mechanism of the op that changed it
+
+    def aux(i, when, exclude_self=False):
+        """One auxiliary classmethod on class i; the schema of class i (as it
+        is right before the call) and of every other class must survive."""
+        op = rng.choice(AUX_OPS[backend])
+        try:
+            before = F.fp(h1[i].to_schema(), ident=True)
+        except Exception:
+            return
+        try:
+            aux_call(h1[i], op)
+            run.count("aux_op:%s:returned" % op)
+        except Exception as e:
+            run.count("undecided:aux_op:%s:raises:%s" % (op, type(e).__name__))
+        run.count("aux_op_schema_unchanged_checked")
+        run.count("aux_op_schema_unchanged_checked:" + when)
+        run.count("aux_op_schema_unchanged_checked:%s:%s" % (backend, op))
+        now = fp_now = None
+        try:
+            now = h1[i].to_schema()
+            fp_now = F.fp(now, ident=True)
+            d = F.diff(before, fp_now)
+        except Exception as e:
+            d = "to_schema raises %r" % (e,)
+        if d:
+            aux_changed[i] = aux_mechanism(op)
+            run.violation("to_schema-changed-by-model-classmethod",
+                          {**witness0, "class": i, "op": op, "when": when,
+                           "diff": d}, aux_mechanism(op))
+            if i in recorded and fp_now is not None:
+                recorded[i] = (now, fp_now)      # reported once, here
+        keep = recorded.pop(i, None) if exclude_self else None
+        check_unchanged(ncls, ("aux:" + op, i))
+        if keep is not None:
+            recorded[i] = keep
 
     def on_defined(i, cls):
         h1.append(cls)
@@ -496,6 +592,17 @@ def one_case(run, rng, backend=None, prog=None):
                           + type(e).__name__)
             check_unchanged(i - 1, ("compiled", i))
             return
+        if rng.random() < 0.12:
+            # an auxiliary classmethod is the first thing ever called on the
+            # class (it compiles the schema itself); STRUCT judges the result
+            op = rng.choice(AUX_OPS[backend])
+            try:
+                aux_call(cls, op)
+                run.count("aux_op_before_first_to_schema:returned")
+            except Exception as e:
+                run.count("undecided:aux_op:%s:raises:%s" % (op, type(e).__name__))
+            run.count("aux_op_before_first_to_schema")
+            run.count("aux_op_before_first_to_schema:%s:%s" % (backend, op))
         try:
             s = cls.to_schema()
         except Exception as e:
@@ -515,6 +622,8 @@ def one_case(run, rng, backend=None, prog=None):
                            "eq": bool(s2 == s)}, None)
         recorded[i] = (s, fp1)
         check_unchanged(i - 1, ("compiled", i))
+        if rng.random() < 0.35:
+            aux(i, "after-compile")
 
     try:
         P.build_models(prog, log=log, on_defined=on_defined, ann_variant=variant)
@@ -602,9 +711,17 @@ def one_case(run, rng, backend=None, prog=None):
     # VERDICT per class
     for i in sorted(objs):
         flat = flats[i]
+        own_unique = flat["options"].get("unique") or None
+        aim = None
+        for a in P.chain(prog, i)[:-1]:
+            u = flats[a]["options"].get("unique") or None
+            if u and u != own_unique:
+                aim = u       # an ancestor's constraint this class changed
         for k in range(rng.choice([2, 2, 3])):
+            if rng.random() < 0.3:
+                aux(i, "between-validations", exclude_self=True)
             try:
-                table, muts = P.gen_frame(rng, flat, backend)
+                table, muts = P.gen_frame(rng, flat, backend, aim=aim)
                 P.make_data(table, backend)
             except Exception as e:
                 run.count("frame_gen_error:" + type(e).__name__)
@@ -612,10 +729,13 @@ def one_case(run, rng, backend=None, prog=None):
             run.count("frames")
             for m in muts:
                 run.count("mutation:" + str(m[0]))
+                if m[0] == "dup_row":
+                    run.count("mutation:dup_row:" + m[1])
             for lazy in (False, True):
                 log.clear()
                 sm = struct_mech.get(i)
-                if F.diff(recorded[i][1], F.fp(h1[i].to_schema(), ident=True)):
+                if i not in aux_changed and \
+                        F.diff(recorded[i][1], F.fp(h1[i].to_schema(), ident=True)):
                     # an earlier (failing) validate left the model's cached
                     # schema modified - C05's subject, not this property's
                     run.count("undecided:model-schema-mutated-by-earlier-validate(C05)")
@@ -625,9 +745,13 @@ def one_case(run, rng, backend=None, prog=None):
                                          lazy, "struct-equal",
                                          sugar=(k == 1 and lazy))
                     if w:
+                        # (after an auxiliary classmethod changed the schema:
+                        # the observable consequence of that mechanism)
                         run.violation("verdict-differs",
                                       {**witness0, "class": i, "table": table,
-                                       "flat": _brief_flat(flat), **w}, None)
+                                       "flat": _brief_flat(flat),
+                                       "after_aux": aux_changed.get(i), **w},
+                                      aux_changed.get(i))
                 elif sm == "unknown":
                     run.count("verdict_skipped_after_unexplained_struct_diff")
                 else:
@@ -723,6 +847,39 @@ FLOORS_QUICK = {
     "config_opt:switched-off-in-subclass": 15,
     "class_attribute_checked": 2100, "class_attribute_checked:aliased": 880,
     "field_kw:compiled-pattern": 10,
+    # input classes / relation added for the seeded mutations C16-mut4 (an
+    # auxiliary classmethod changes the cached schema) and C16-mut6 (a
+    # None-default Config option set back to None in a subclass)
+    "aux_op_schema_unchanged_checked": 770,
+    "aux_op_schema_unchanged_checked:after-compile": 260,
+    "aux_op_schema_unchanged_checked:between-validations": 510,
+    "aux_op_schema_unchanged_checked:pandas:empty": 130,
+    "aux_op_schema_unchanged_checked:pandas:get_metadata": 60,
+    "aux_op_schema_unchanged_checked:pandas:to_json_schema": 60,
+    "aux_op_schema_unchanged_checked:pandas:to_yaml": 60,
+    "aux_op_schema_unchanged_checked:pandas:strategy": 60,
+    "aux_op_schema_unchanged_checked:pandas:pydantic_validate": 60,
+    "aux_op_schema_unchanged_checked:polars:get_metadata": 44,
+    "aux_op_schema_unchanged_checked:polars:to_json_schema": 44,
+    "aux_op_schema_unchanged_checked:polars:to_yaml": 44,
+    "aux_op_schema_unchanged_checked:polars:pydantic_validate": 44,
+    "aux_op:empty:returned": 130, "aux_op:to_yaml:returned": 100,
+    "aux_op:to_json_schema:returned": 110, "aux_op:strategy:returned": 60,
+    "aux_op_before_first_to_schema": 80,
+    "aux_op_before_first_to_schema:returned": 66,
+    "config_opt:reset-in-subclass": 44,
+    "config_opt:reset-in-subclass:unique": 11,
+    "config_opt:reset-in-subclass:title": 9,
+    "config_opt:reset-in-subclass:description": 9,
+    "config_opt:reset-in-subclass:name": 9,
+    "config_opt:reset-in-subclass:to:None": 38,
+    "config_opt:reset-in-subclass:depth3": 22,
+    "config_opt:reset-in-subclass:pandas:plain": 16,
+    "config_opt:reset-in-subclass:pandas:subclass": 6,
+    "config_opt:reset-in-subclass:polars:plain": 10,
+    "config_opt:reset-in-subclass:polars:subclass": 5,
+    "config_opt:dtype": 33,
+    "mutation:dup_row": 149, "mutation:dup_row:aimed": 11,
 }
 
 
